@@ -50,7 +50,36 @@ type evaluator struct {
 	static   map[int]*cell      // builtins, host inputs and all variables of top-level code
 	steps    int
 	maxSteps int
-	depth    int // active user function calls
+	depth    int    // active user function calls
+	nest     int    // nesting depth of the value currently being compared/rendered/copied
+	internal string // set when refsem itself is inconsistent (never expected)
+}
+
+// maxValueNesting bounds the recursion over nested (possibly cyclic) values.
+const maxValueNesting = 10000
+
+// enter/exit bracket one level of recursion over a value's structure.
+func (e *evaluator) enter() *rtErr {
+	if err := e.step(); err != nil {
+		return err
+	}
+	e.nest++
+	if e.nest > maxValueNesting {
+		return fail(Unsupported, "value nested too deeply (cyclic container?)")
+	}
+	return nil
+}
+
+func (e *evaluator) exit() { e.nest-- }
+
+// idAt returns the declaration id the identifier at pos was resolved to.
+func (e *evaluator) idAt(pos parser.Pos) int {
+	id, ok := e.refs[pos]
+	if !ok {
+		e.internal = "identifier without declaration"
+		return -1
+	}
+	return id
 }
 
 func (e *evaluator) step() *rtErr {
@@ -63,7 +92,7 @@ func (e *evaluator) step() *rtErr {
 
 // lookup returns the cell of the variable an identifier refers to.
 func (e *evaluator) lookup(pos parser.Pos, en *env) *cell {
-	id := e.refs[pos]
+	id := e.idAt(pos)
 	if en != nil {
 		if c := en.vars[id]; c != nil {
 			return c
@@ -338,7 +367,7 @@ func (e *evaluator) execAssign(lhs, rhs parser.Expr, op token.Token, define bool
 	if !ok {
 		return fail(OtherRuntimeError, "bad assignment target")
 	}
-	id := e.refs[base.NamePos]
+	id := e.idAt(base.NamePos)
 
 	if define {
 		if _, isFunc := rhs.(*parser.FuncLit); isFunc {
@@ -454,10 +483,10 @@ func (e *evaluator) execForIn(s *parser.ForInStmt, en *env) (completion, *rtErr)
 	f.hasKey = s.Key.Name != "_"
 	f.hasVal = s.Value.Name != "_"
 	if f.hasKey {
-		f.keyID = e.refs[s.Key.NamePos]
+		f.keyID = e.idAt(s.Key.NamePos)
 	}
 	if f.hasVal {
-		f.valID = e.refs[s.Value.NamePos]
+		f.valID = e.idAt(s.Value.NamePos)
 	}
 
 	switch it := it.(type) {
@@ -698,7 +727,7 @@ func (e *evaluator) evalExpr(x parser.Expr, en *env) (Value, *rtErr) {
 		}
 		for _, p := range x.Type.Params.List {
 			fn.Params = append(fn.Params, p.Name)
-			fn.paramIDs = append(fn.paramIDs, e.refs[p.NamePos])
+			fn.paramIDs = append(fn.paramIDs, e.idAt(p.NamePos))
 		}
 		if en != nil {
 			// capture by reference: the closure shares the cells that are
